@@ -20,6 +20,9 @@ All arguments are `key=value` tokens.  Histories (`hist=`, `dhist=`) are comma s
 `chunk.save secs= ypos= via=<mem|nbt> psecs=<n|-> phist=<history> reg= nb= air= hist=`   (psecs/phist: the destination `save.Chunk` was filled before by that chunk)
    `=> ok W=<sec…> Y=<y.y.…> SP=<per section: |states palette|.digest(data).|biomes palette|.digest(data)> SH=<six raw-long digests> Sst=<hex> R=<sec…> RH=<six> Rst=<hex>`
    W section = `count.nonair.statesDigest.biomesDigest.statesBits.biomesBits`, R section = `count.nonair.sd.bd.sky.blk`.
+`chunk.life secs= ypos= mdl= from=<hist|hand> hist= rounds= | S=<sections> post=` `=> ok L= P= n= len= wd= rn= left= Q= T=`
+   (a chunk loaded from the save form — the library's own, once or twice, or a hand-built one with one-entry palettes
+   and no data —, its sections L, after the `post` history P, read back from the wire Q, saved and loaded again T)
 `light.rt used= extra= sky=<hex longs> blk= sl=<len:a:m;…> bl=` `=> ok n= len= rn= left= sky= blk= sl= bl=`
 `save.hm secs= k= longs= => ok | err`   (ChunkFromSave of an empty chunk whose height map k has that many longs; -1 = key absent)
 `be.pack <x> <z> => ok <hex2> | no <hex2>`        `be.unpack <hex2> => <x> <z>`
@@ -443,6 +446,88 @@ def saveHm (args : List String) : Option String := do
     | _ => pure "err@tosave"
   | _ => pure "panic"
 
+/-- a hand-built section of a save form: `<ids>|<a>.<m>|<biome ids>|<a>.<m>` (`-` for `a.m`: no data array) -/
+def parseHandPal (pal am : String) (cells minBits : Nat) : Option (List Int × Option (List (BitVec 64)) × Array Nat) := do
+  let ids ← (pal.splitOn ".").mapM String.toNat?
+  let n := ids.length
+  if n == 0 then none else
+  let first := ids.headD 0
+  if am == "-" || n == 1 then
+    pure (ids.map Int.ofNat, none, Array.replicate cells first)
+  else
+    match am.splitOn "." with
+    | [a, m] => do
+      let a ← a.toNat?; let m ← m.toNat?
+      let idx := (List.range cells).map fun k => (a + k * m) % n
+      let w := max minBits (GoMC.Model.bitLen (n - 1))
+      pure (ids.map Int.ofNat, some (Spec.pack w idx), (idx.map fun i => ids.getD i 0).toArray)
+    | _ => none
+
+structure Hand where
+  sv : SaveChunk Int Int
+  arrays : List (Array Nat × Array Nat)     -- what the sections hold, for the oracle
+
+def parseHand (ypos : Int) (sSpec : String) : Option Hand := do
+  let parts := sSpec.splitOn "/"
+  let secs ← (List.range parts.length).mapM fun i => do
+    match (parts.getD i "").splitOn "|" with
+    | [sp, sam, bp, bam] =>
+      let (spal, sdata, sarr) ← parseHandPal sp sam 4096 4
+      let (bpal, bdata, barr) ← parseHandPal bp bam 64 0
+      let sec : SaveSec Int Int := { y := BitVec.setWidth 8 (BitVec.ofNat 32 i + BitVec.ofInt 32 ypos),
+                                     states := ⟨spal, sdata⟩, biomes := ⟨bpal, bdata⟩, sky := none, blk := none }
+      pure (sec, sarr, barr)
+    | _ => none
+  let fresh : SaveChunk Int Int := SaveChunk.fresh (BitVec.ofInt 32 ypos)
+  pure { sv := { fresh with secs := secs.map (·.1), status := "hand".toUTF8.toList.map fun b => BitVec.ofNat 8 b.toNat },
+         arrays := secs.map fun t => (t.2.1, t.2.2) }
+
+/-- the model's observation for a `chunk.life` line -/
+def life (args : List String) : Option String := do
+  let x ← ctxOf args
+  let secs ← (← kv args "secs").toNat?
+  let ypos ← (← kv args "ypos").toInt?
+  let post ← parseHist ((kv args "post").getD "-")
+  let R := idReg x
+  let fresh : SaveChunk Int Int := SaveChunk.fresh (BitVec.ofInt 32 ypos)
+  let saveLoad (c : MChunk) : Res MChunk :=
+    match chunkToSave R x.gbS x.gbB fresh c with
+    | .ok sv => chunkFromSave R x.gbS x.gbB sv
+    | .err => .err
+    | .panic => .panic
+  let loaded : Option (Res MChunk) :=
+    if (kv args "from") == some "hand" then do
+      let h ← parseHand ypos (← kv args "S")
+      pure (chunkFromSave R x.gbS x.gbB h.sv)
+    else do
+      let hist ← parseHist ((kv args "hist").getD "-")
+      let rounds ← ((kv args "rounds").getD "1").toNat?
+      pure ((List.range rounds).foldl (fun acc _ => match acc with | .ok c => saveLoad c | e => e) (build x secs hist))
+  match ← loaded with
+  | .ok cur =>
+    let l ← secsObs x cur false false
+    match run x cur post with
+    | .ok cur2 =>
+      let p ← secsObs x cur2 false false
+      let w := cur2.writeTo x.gbS x.gbB
+      match build x secs [] with
+      | .ok d =>
+        match Model.Chunk.Chunk.readFrom x.gbS x.gbB d (Stream.ofBytes w.1) with
+        | (.ok (d', rn), s') =>
+          let q ← secsObs x d' false false
+          match saveLoad cur2 with
+          | .ok again =>
+            let t ← secsObs x again false false
+            pure s!"ok L={l} P={p} n={w.2} len={w.1.length} wd={digestBytes (w.1.toArray.map BitVec.toNat)} rn={rn} left={s'.flat.length} Q={q} T={t}"
+          | .err => pure "err@save2"
+          | .panic => pure "panic"
+        | (.err, s') => pure s!"ok L={l} P={p} rerr left={s'.flat.length}"
+        | (.panic, _) => pure "panic"
+      | _ => pure "panic"
+    | _ => pure "panic"
+  | .err => pure "err@fromsave"
+  | .panic => pure "panic"
+
 end M
 
 /-! ### chunk.wire -/
@@ -492,6 +577,41 @@ def saveV (args : List String) (obs : String) : Verdict :=
     let want := s!"ok W={wWant} Y={yWant} SP={spObs} SH={sh} Sst={sst} K={keepWant} R={rWant} RH={sh} Rst={sst}"
     { model := if withModel then model0 else want, spec := if obs == want then none else some ("save round trip: " ++ firstDiff want obs) }
   | _, _, _ => { model := "bad-arg" }
+
+/-! ### chunk.life: a chunk that came out of the save form keeps exact counters through SetBlock, the wire and the save form -/
+
+def lifeV (args : List String) (obs : String) : Verdict :=
+  let withModel := (kv args "mdl") != some "0"
+  let toks := obs.splitOn " "
+  let specChunk : Option (Spec.Chunk.Chunk × List Nat) := do
+    let secs ← (← kv args "secs").toNat?
+    let reg ← (← kv args "reg").toNat?
+    let nb ← (← kv args "nb").toNat?
+    let air ← parseAir (← kv args "air")
+    let ypos ← (← kv args "ypos").toInt?
+    let env : Env := { reg, nb }
+    let post ← parseHist ((kv args "post").getD "-")
+    let c0 : Spec.Chunk.Chunk ←
+      if (kv args "from") == some "hand" then do
+        let h ← M.parseHand ypos (← kv args "S")
+        pure { (empty secs) with secs := (h.arrays.map fun a => ({ states := a.1, biomes := a.2 } : Sec)).toArray }
+      else do
+        let hist ← parseHist ((kv args "hist").getD "-")
+        run env (empty secs) hist
+    let c1 ← run env c0 post
+    -- the oracle needs both stages: pack them into one chunk (sections of the loaded chunk, then those after `post`)
+    pure ({ c1 with secs := c0.secs ++ c1.secs }, air)
+  match specChunk, (if withModel then M.life args else some "") with
+  | some (cc, air), some model0 =>
+    let n := cc.secs.size / 2
+    let l := joinSecs ((cc.secs.toList.take n).map (secBase air))
+    let p := joinSecs ((cc.secs.toList.drop n).map (secBase air))
+    let nObs := (kv toks "len").getD "?"
+    let wdObs := (kv toks "wd").getD "?"
+    let want := s!"ok L={l} P={p} n={nObs} len={nObs} wd={wdObs} rn={nObs} left=0 Q={p} T={p}"
+    { model := if withModel then model0 else want,
+      spec := if obs == want then none else some ("a loaded chunk's counters / contents: " ++ firstDiff want obs) }
+  | _, _ => { model := "bad-arg" }
 
 /-! ### save.hm: a saved height map of the wrong length is an error, never a panic -/
 
@@ -563,6 +683,7 @@ def handle (op : String) (args : List String) (obs : String) : Option Verdict :=
   match op, args with
   | "chunk.wire", _ => some (wireV args obs)
   | "chunk.save", _ => some (saveV args obs)
+  | "chunk.life", _ => some (lifeV args obs)
   | "light.rt", _ => some (lightV args obs)
   | "save.hm", _ => some (saveHmV args obs)
   | "be.pack", [x, z] => some (packV x z obs)
